@@ -45,6 +45,8 @@ pub struct PolicyState<B, C> {
     cmd_tx: mpsc::Sender<PolicyCmd>,
     channel_senders: Vec<mpsc::Sender<Vec<u8>>>,
     channel_receivers: Option<Vec<tokio::sync::Mutex<mpsc::Receiver<Vec<u8>>>>>,
+    /// Our own party index, known once the channels have been initialized for a policy.
+    party: Option<usize>,
     start_span: Option<Span>,
 }
 
@@ -78,6 +80,7 @@ where
                 cmd_tx: cmd_tx.clone(),
                 channel_senders: vec![],
                 channel_receivers: None,
+                party: None,
                 start_span: None,
             },
             PolicyStateHandle(cmd_tx),
@@ -491,6 +494,7 @@ where
         }
         self.channel_senders = channel_senders;
         self.channel_receivers = Some(channel_receivers);
+        self.party = Some(policy.party);
     }
 }
 fn record_span_computation_id(span: &Option<Span>, computation_id: &Uuid) {
@@ -1058,6 +1062,12 @@ where
 {
     #[tracing::instrument(level = Level::TRACE, skip(self, ret))]
     async fn msg(&self, mpc_msg: MpcMsg, ret: Ret<MpcMsgError>) -> ControlFlow<()> {
+        if Some(mpc_msg.from) == self.party {
+            // we never send messages to ourselves, so nobody drains the queue with our own index:
+            // accepting such messages would block the state machine once that queue is full
+            ret_err(ret, MpcMsgError::UnknownParty(mpc_msg.from));
+            return ControlFlow::Continue(());
+        }
         let Some(sender) = self.channel_senders.get(mpc_msg.from) else {
             // out-of-range sender index, or no policy scheduled yet: reject the message but
             // keep the state machine running
